@@ -46,6 +46,8 @@ class Env(object):
         from spyne.server.null import NullServer
         from spyne.server import ServerBase
         from spyne.client import RemoteProcedureBase
+        from spyne.auxproc import process_contexts
+        from spyne.auxproc.sync import SyncAuxProc
         from lxml import etree
         self.__dict__.update(locals())
         self.proto_cls = {'xml': XmlDocument, 'soap': Soap11, 'json': JsonDocument}
@@ -88,6 +90,10 @@ class Env(object):
                     p_ctx.out_string = None
                     self.get_out_string(p_ctx)
                 out = b''.join(p_ctx.out_string)
+                try:        # wsgi.py: handle_error / handle_rpc -- "report but ignore any exceptions from auxiliary methods"
+                    process_contexts(self, contexts[1:], p_ctx, error=p_ctx.in_error or p_ctx.out_error)
+                except Exception:
+                    pass
                 try:
                     p_ctx.close()
                 except Exception:
@@ -239,20 +245,31 @@ class Program(object):
         self.sig, self.script = spec['sig'], spec['script']
         self.name = spec.get('name', 'meth')
         self.recv = None
+        self.aux_recv = []          # [(index of the auxiliary method, canonical received arguments)] in call order
         self.decor_error = None
         self.apps, self.servers, self.clients = {}, {}, {}
         self.null = None
+        self.held = None            # a kept `_FunctionCall` object: f = server.service.<name>
+        self.aux_svcs = []
         try:
             self.svc = self._service()
             self.desc = self.svc.public_methods[self.name]
+            self.aux_svcs = [self._service(i, a) for i, a in enumerate(spec.get('auxs') or [])]
         except Exception as e:
             self.decor_error = type(e).__name__
 
-    def _service(self):
-        E, sig = self.E, self.sig
+    def services(self):
+        return [self.svc] + self.aux_svcs
+
+    def _service(self, aux_index=None, aux=None):
+        """the service class of the primary method, or of its `aux_index`-th auxiliary companion: same public name
+        and arguments, own return declaration and body, `__aux__ = SyncAuxProc()`"""
+        E = self.E
+        sig = self.sig if aux is None else aux['sig']
+        script = self.script if aux is None else aux['script']
         ptypes = [E.types[t] for t in self.spec['ptypes']]
         kp = {}
-        r = self.spec['rtypes']
+        r = self.spec['rtypes'] if aux is None else aux['rtypes']
         if sig['returns'] is not None:
             kp['_returns'] = [E.types[t] for t in r] if 'many' in sig['returns'] else E.types[r[0]]
         if sig['style'] != 'wrapped' or self.spec.get('explicit_style'):
@@ -264,28 +281,48 @@ class Program(object):
             self.name, ', '.join((['ctx'] if with_ctx else []) + params), ''.join(p + ', ' for p in params))
 
         def _body(recv):
-            prog.recv = [canon_val(x, E) for x in recv]
-            return run_script(E, prog.script, recv)
+            if aux is None:
+                prog.recv = [canon_val(x, E) for x in recv]
+            else:
+                prog.aux_recv.append((aux_index, [canon_val(x, E) for x in recv]))
+            return run_script(E, script, recv)
         glob = {'_body': _body}
         exec(src, glob)
         fn = glob[self.name]
         deco = (E.rpc if with_ctx else E.srpc)(*ptypes, **kp)
-        return type('Svc_' + self.name, (E.Service,), {self.name: deco(fn)})
+        ns = {self.name: deco(fn)}
+        if aux is not None:
+            ns['__aux__'] = E.SyncAuxProc()
+        return type(('Svc_' if aux is None else 'Aux%d_' % aux_index) + self.name, (E.Service,), ns)
+
+    def aux_canon(self):
+        """the arguments each auxiliary function received, by index of the companion"""
+        got = dict(self.aux_recv) if len(set(i for i, _ in self.aux_recv)) == len(self.aux_recv) else None
+        if got is None:
+            return {'dup': [[i, r] for i, r in self.aux_recv]}
+        return [{'ok': got[i]} for i in sorted(got)]
 
     # ---- NullServer
     def null_server(self):
         if self.null is None:
             E = self.E
-            app = E.Application([self.svc], TNS, in_protocol=E.XmlDocument(), out_protocol=E.XmlDocument())
+            app = E.Application(self.services(), TNS, in_protocol=E.XmlDocument(), out_protocol=E.XmlDocument())
             self.null = E.NullServer(app)
         return self.null
 
-    def call_null(self, pos, kw):
+    def call_null(self, pos, kw, held=False):
+        """one call through NullServer: on a fresh `server.service.<name>` or on the kept function object"""
         E = self.E
         self.recv = None
+        self.aux_recv = []
         try:
-            r = getattr(self.null_server().service, self.name)(*[native(x, E) for x in pos],
-                                                              **{k: native(v, E) for k, v in kw})
+            if held:
+                if self.held is None:
+                    self.held = getattr(self.null_server().service, self.name)
+                f = self.held
+            else:
+                f = getattr(self.null_server().service, self.name)
+            r = f(*[native(x, E) for x in pos], **{k: native(v, E) for k, v in kw})
             out = {'ok': canon_val(r, E)}
         except E.Fault as e:
             out = {'fault': fault_code(e.faultcode)}
@@ -299,8 +336,8 @@ class Program(object):
         if proto not in self.servers:
             E = self.E
             P = E.proto_cls[proto]
-            sapp = E.Application([self.svc], TNS, in_protocol=P(), out_protocol=P())
-            capp = E.Application([self.svc], TNS, in_protocol=P(), out_protocol=P())
+            sapp = E.Application(self.services(), TNS, in_protocol=P(), out_protocol=P())
+            capp = E.Application(self.services(), TNS, in_protocol=P(), out_protocol=P())
             self.servers[proto] = E.MemServer(sapp)
             self.clients[proto] = capp
         return self.servers[proto], self.clients[proto]
@@ -308,8 +345,7 @@ class Program(object):
     def client_ctx(self, capp):
         E = self.E
         rp = E.RemoteProcedureBase('mem://', capp, self.name)
-        ctx, = rp.contexts
-        return ctx
+        return rp.contexts[0]       # the primary context (auxiliary companions follow it)
 
     def bound_args(self, pos, kw):
         """Python binding of (*pos, **kw) to the in-message keys (positional first, then keywords)"""
@@ -332,6 +368,7 @@ class Program(object):
     def _call_wire(self, proto, pos, kw, keep=None):
         E = self.E
         self.recv = None
+        self.aux_recv = []
         server, capp = self.wire(proto)
         try:
             keys, cvals = self.bound_args(pos, kw)
@@ -523,6 +560,23 @@ def _measure_facts(E):
         p = prog('wrapped', [], [], {'one': None}, ['int'], {'k': 'const', 'v': {'i': '5'}})
         o = p.call_null([], [])[1]
         f['ewMembers'] = True if o == {'ok': {'i': '5'}} else (False if o == {'ok': None} else 'other:' + json.dumps(o))
+    # auxResult: whose result does NullServer return when an auxiliary method is bound to the same name
+    def aux_result():
+        w = fact_witness('auxResult')
+        p = Program(E, dict(spec_of(w['sig'], w['ptypes'], w['rtypes'], w['script'], 'probe'), auxs=w['auxs']))
+        out = p.call_null(w['pos'], w['kw'])[1]
+        return 'primaryOnly' if out == {'ok': {'i': '7'}} else ('lastContext' if out == {'ok': {'s': 'aux'}} else 'other:' + json.dumps(out))
+    f['auxResult'] = _safe(aux_result, 'other:exc:')
+
+    # slotsPerCall: does a kept `_FunctionCall` object rebuild its argument slots on every call
+    def slots_per_call():
+        w = fact_witness('slotsPerCall')
+        p = Program(E, spec_of(w['sig'], w['ptypes'], w['rtypes'], w['script'], 'probe'))
+        got = [p.call_null(pos, kw, held=True)[0] for pos, kw in w['calls']]
+        if got[1] == {'ok': [{'s': 'b'}, None, None]}:
+            return True
+        return False if got[1] == {'ok': [{'s': 'b'}, {'i': '8'}, {'i': '2'}]} else 'other:' + json.dumps(got)
+    f['slotsPerCall'] = _safe(slots_per_call, 'other:exc:')
     # ignMany: what get_out_object leaves in ctx.out_object for a lone Ignored with 3 declared return values
     def ign_many():
         p = prog('wrapped', [], [], {'many': 3}, ['int', 'int', 'int'], {'k': 'ignored', 'v': {'i': '1'}})
@@ -569,7 +623,8 @@ def _measure_facts(E):
 
 
 GOOD = {'isOutBare': {'WRAPPED': False, 'EMPTY': True, 'BARE': True, 'OUT_BARE': True, 'EMPTY_OUT_BARE': True},
-        'wrapUpTo': 1, 'cbOrder': 'noReturnFirst', 'ignMany': 'nones', 'ewWrapper': True, 'ewMembers': True}
+        'wrapUpTo': 1, 'cbOrder': 'noReturnFirst', 'ignMany': 'nones', 'ewWrapper': True, 'ewMembers': True,
+        'auxResult': 'primaryOnly', 'slotsPerCall': True}
 GOOD_PROTO = {'bareOut': 'first', 'bareIn': 'methodName', 'noneSingle': 'nil'}
 
 
@@ -600,6 +655,8 @@ def facts18 : Facts18 where
   ewWrapper := %s
   ewMembers := %s
   ignMany := .%s
+  auxResult := .%s
+  slotsPerCall := %s
   xml := %s
   soap := %s
   json := %s
@@ -610,6 +667,7 @@ end SpyneModel.Generated
        ctor(f['cbOrder'], ('noReturnFirst', 'outBareFirst'), 'outBareFirst'),
        b(f['ewWrapper'] is True), b(f['ewMembers'] is True),
        ctor(f['ignMany'], ('nones', 'emptyTuple'), 'emptyTuple'),
+       ctor(f['auxResult'], ('primaryOnly', 'lastContext'), 'lastContext'), b(f['slotsPerCall'] is True),
        cfg(f['xml']), cfg(f['soap']), cfg(f['json']))
 
 
@@ -628,6 +686,16 @@ def fact_witness(name, proto=None):
     if name == 'bareIn':
         return dict(sig={'style': 'bare', 'params': ['p'], 'bareArg': P, 'returns': {'one': None}}, ptypes=['P'],
                     rtypes=['int'], script={'k': 'field', 'f': 'a'}, pos=[{'i': '5'}, {'s': 'q'}], kw=[], protos=[proto])
+    if name == 'auxResult':
+        sig = {'style': 'wrapped', 'params': ['a'], 'bareArg': None, 'returns': {'one': None}}
+        return dict(sig=sig, ptypes=['int'], rtypes=['int'], script={'k': 'pick', 'idx': [0]}, pos=[{'i': '7'}], kw=[],
+                    protos=list(PROTOS),
+                    auxs=[{'sig': dict(sig), 'rtypes': ['str'], 'script': {'k': 'const', 'v': {'s': 'aux'}}}])
+    if name == 'slotsPerCall':
+        sig = {'style': 'wrapped', 'params': ['s', 'width', 'prec'], 'bareArg': None, 'returns': {'many': 3}}
+        return dict(sig=sig, ptypes=['str', 'int', 'int'], rtypes=['str', 'int', 'int'],
+                    script={'k': 'pick', 'idx': [0, 1, 2], 'many': True}, pos=[{'s': 'b'}], kw=[], protos=list(PROTOS),
+                    calls=[[[{'s': 'a'}, {'i': '8'}, {'i': '2'}], []], [[{'s': 'b'}], []]])
     if name == 'ewWrapper':
         return dict(sig={'style': 'out_bare', 'params': ['a'], 'bareArg': None, 'returns': ret_one('Ack')}, ptypes=['int'],
                     rtypes=['Ack'], script={'k': 'const', 'v': {'o': ['Ack', []]}}, pos=[{'i': '1'}], kw=[], protos=list(PROTOS))
@@ -718,6 +786,65 @@ def gen_script(rng, sig, ptypes, rtypes, recv_types, kind):
     if many:
         return {'k': 'const', 'v': {'l': [gen_value(rng, t) for t in rtypes]}, 'tuple': True}
     return {'k': 'const', 'v': gen_value(rng, rtypes[0])}
+
+
+def gen_auxs(rng, sig, ptypes, n):
+    """`n` auxiliary companions of a method: same name, style and arguments; own return declaration and body (returns
+    something else, returns nothing, is Ignored, raises)"""
+    auxs = []
+    for _ in range(n):
+        nret = rng.choice([0, 1, 1, 2]) if sig['style'] == 'wrapped' else rng.choice([0, 1])
+        rtypes = [rng.choice(['int', 'str', 'bool', 'P']) for _ in range(nret)]
+        returns = None if nret == 0 else (ret_one(rtypes[0]) if nret == 1 else {'many': nret})
+        asig = dict(sig, returns=returns)
+        kind = rng.choice(['const', 'const', 'echo', 'none', 'fault', 'error', 'ignored'])
+        auxs.append({'sig': asig, 'rtypes': rtypes,
+                     'script': gen_script(rng, asig, ptypes, rtypes, recv_types_of(asig, ptypes), kind)})
+    return auxs
+
+
+def history_of(rng, groups, k):
+    """a call history: `k` conformant calls with different positional/keyword subsets and different values"""
+    pool = [(pos, kw) for calls in groups for pos, kw, tag in calls if tag in ('pos', 'kw', 'split', 'split-skipnone', 'pos-short')]
+    rng.shuffle(pool)
+    # put a call with many arguments first and a short one after it: what a shared slot list would leak
+    pool.sort(key=lambda c: -(len(c[0]) + len(c[1])))
+    head, rest = pool[:1], pool[1:]
+    rng.shuffle(rest)
+    rest.sort(key=lambda c: len([v for v in c[0] if v is not None]) + len([1 for _, v in c[1] if v is not None]))
+    return (head + rest)[:k]
+
+
+def boundary_histories():
+    """the histories of the seeds' demos and the corners of the context loop"""
+    out = []
+    fmt = {'style': 'wrapped', 'params': ['s', 'width', 'prec'], 'bareArg': None, 'returns': {'many': 3}}
+    s = spec_of(fmt, ['str', 'int', 'int'], ['str', 'int', 'int'], {'k': 'pick', 'idx': [0, 1, 2], 'many': True}, 'fmt')
+    out.append((s, [([{'s': 'a'}, {'i': '8'}, {'i': '2'}], []), ([{'s': 'b'}], []), ([], [['prec', {'i': '1'}]]), ([], [])]))
+    span = {'style': 'bare', 'params': ['p'], 'bareArg': ['P', ['a', 'b']], 'returns': ret_one('P')}
+    s = spec_of(span, ['P'], ['P'], {'k': 'pick', 'idx': [0]}, 'span')
+    out.append((s, [([{'i': '1'}, {'s': 'nine'}], []), ([], [['b', {'s': 'five'}]]), ([{'i': '2'}], []), ([], [])]))
+    ob = {'style': 'out_bare', 'params': ['a', 'b'], 'bareArg': None, 'returns': {'one': None}}
+    s = spec_of(ob, ['int', 'int'], ['int'], {'k': 'pick', 'idx': [1]}, 'second')
+    out.append((s, [([{'i': '1'}, {'i': '2'}], []), ([{'i': '3'}], []), ([], [['a', {'i': '4'}]])]))
+    # auxiliary companions: demo 2 (Calc.add + Audit.add), two companions, one raising, companion of a failing primary
+    add = {'style': 'wrapped', 'params': ['x', 'y'], 'bareArg': None, 'returns': {'one': None}}
+
+    def aux(returns, rtypes, script):
+        return {'sig': dict(add, returns=returns), 'rtypes': rtypes, 'script': script}
+    logged = aux({'one': None}, ['str'], {'k': 'const', 'v': {'s': 'logged'}})
+    raising = aux(None, [], {'k': 'fault', 'code': 'Client.Aux'})
+    crashing = aux({'one': None}, ['int'], {'k': 'error', 'cls': 'KeyError'})
+    ign = aux({'one': None}, ['int'], {'k': 'ignored', 'v': {'i': '5'}})
+    calls = [([{'i': '2'}, {'i': '3'}], []), ([], [['x', {'i': '2'}], ['y', {'i': '3'}]]), ([{'i': '9'}], [])]
+    for auxs in ([logged], [logged, raising], [raising, logged], [crashing], [ign, logged], []):
+        out.append((dict(spec_of(add, ['int', 'int'], ['int'], {'k': 'pick', 'idx': [0]}, 'add'), auxs=auxs), calls))
+    out.append((dict(spec_of(add, ['int', 'int'], ['int'], {'k': 'fault', 'code': 'Client.Primary'}, 'add'), auxs=[logged]), calls[:2]))
+    out.append((dict(spec_of(add, ['int', 'int'], ['int'], {'k': 'ignored', 'v': {'i': '1'}}, 'add'), auxs=[logged]), calls[:2]))
+    out.append((dict(spec_of(span, ['P'], ['P'], {'k': 'pick', 'idx': [0]}, 'span'),
+                     auxs=[{'sig': dict(span, returns={'one': None}), 'rtypes': ['int'], 'script': {'k': 'field', 'f': 'a'}}]),
+                [([{'i': '1'}, {'s': 'nine'}], []), ([], [['b', {'s': 'five'}]])]))
+    return out
 
 
 def gen_sig(rng, style=None, nparams=None, nret=None):
@@ -996,6 +1123,80 @@ class Runner(object):
                                     dict(rep, op='ignored-direct', got=out))
         return prog
 
+    # ------------------------------------------------------------------ call histories on ONE kept function object
+    def history_steps(self, prog, calls):
+        """issue `calls` one after the other on the kept `_FunctionCall` object; next to each, the same call on a fresh
+        `server.service.<name>`"""
+        steps = []
+        for pos, kw in calls:
+            recv, out = prog.call_null(pos, kw, held=True)
+            aux = prog.aux_canon()
+            frecv, fout = prog.call_null(pos, kw)
+            steps.append({'held': {'recv': recv, 'out': out, 'aux': aux},
+                          'fresh': {'recv': frecv, 'out': fout, 'aux': prog.aux_canon()}})
+        return steps
+
+    def run_history(self, spec, calls, protos=PROTOS):
+        ctx, E = self.ctx, self.E
+        prog = Program(E, spec)
+        if prog.decor_error:
+            return
+        sig, auxs = spec['sig'], spec.get('auxs') or []
+        twin = Program(E, dict(spec, auxs=[])) if auxs else None
+        shape = self.shape(spec)
+        impl_steps = []
+        for n, (pos, kw) in enumerate(calls):
+            ctx.hit('history:step%d' % min(n, 4))
+            ctx.hit('history:auxs%d' % len(auxs))
+            rep = dict(spec=spec, calls=calls, step=n, pos=pos, kw=kw)
+            recv, out = prog.call_null(pos, kw, held=True)
+            aux = prog.aux_canon()
+            impl_steps.append({'recv': recv, 'out': out, 'aux': aux})
+            # T3-e the i-th call on a kept object depends on its own arguments only
+            frecv, fout = prog.call_null(pos, kw)
+            faux = prog.aux_canon()
+            if (frecv, fout, faux) != (recv, out, aux):
+                self.t3_fail += 1
+                ctx.hit('t3-fail:history')
+                ctx.finding('history:%s' % sig['style'],
+                            'call %d on a kept function object differs from the same call on a fresh one: %s vs %s'
+                            % (n, json.dumps([recv, out])[:150], json.dumps([frecv, fout])[:150]),
+                            dict(rep, op='history', held={'recv': recv, 'out': out, 'aux': aux},
+                                 fresh={'recv': frecv, 'out': fout, 'aux': faux}))
+            # T3-f the result is the primary method's: auxiliary companions do not change it
+            if twin is not None:
+                trecv, tout = twin.call_null(pos, kw)
+                if (trecv, tout) != (frecv, fout):     # fresh object vs fresh object: no history involved
+                    self.t3_fail += 1
+                    ctx.hit('t3-fail:aux-result')
+                    ctx.finding('aux-changes-result:%s' % sig['style'],
+                                'with auxiliary companions NullServer returns %s, without them %s'
+                                % (json.dumps(fout)[:150], json.dumps(tout)[:150]),
+                                dict(rep, op='aux-result', with_aux={'recv': frecv, 'out': fout}, without_aux={'recv': trecv, 'out': tout}))
+            # T3-b (extended) against the wire, interleaved with the history
+            for proto in protos:
+                keep = {}
+                wrecv, wout = prog.call_wire(proto, pos, kw, keep)
+                waux = prog.aux_canon()
+                self.add({'op': 'wire.aux', 'proto': proto, 'sig': sig, 'script': spec['script'], 'auxs': auxs,
+                          'pos': pos, 'kw': kw}, {'recv': wrecv, 'out': wout, 'aux': waux})
+                ctx.cov['traces_validated_against_impl'] += 1
+                exp = wire_view(sig, out, ctx.facts.get(proto))
+                ok = wout == exp and wrecv == recv and waux == aux
+                ctx.hit('wire-aux:%s:%s' % (proto, 'agree' if ok else 'differ'))
+                if not ok:
+                    self.t3_fail += 1
+                    cls = 'aux-args' if (wout == exp and wrecv == recv) else ('args' if wrecv != recv else 'result')
+                    ctx.hit('t3-fail:aux:' + cls)
+                    ctx.finding('null-vs-wire:%s:history:%s' % (proto, cls),
+                                'NullServer (kept object, call %d) and the %s wire path disagree (%s): %s vs %s'
+                                % (n, proto, cls, json.dumps([out, aux])[:160], json.dumps([wout, waux])[:160]),
+                                dict(rep, op='null-vs-wire', proto=proto, null={'recv': recv, 'out': out, 'aux': aux},
+                                     wire={'recv': wrecv, 'out': wout, 'aux': waux}, expected_wire=exp, **keep))
+        ctx.hit('shape-history:' + shape)
+        self.add({'op': 'null.seq', 'sig': sig, 'script': spec['script'], 'auxs': auxs,
+                  'calls': [{'pos': pos, 'kw': kw} for pos, kw in calls]}, {'steps': impl_steps})
+
     def classify(self, spec, out, wout, recv, wrecv):
         sig, k = spec['sig'], spec['script']['k']
         style = sig['style']
@@ -1024,7 +1225,13 @@ def run(ctx):
         w = fact_witness(name, proto)
         ctx.hit('fact-bad:' + fid)
         spec = spec_of(w['sig'], w['ptypes'], w['rtypes'], w['script'], 'witness')
+        if w.get('auxs'):
+            spec['auxs'] = w['auxs']
         prog = Program(E, spec)
+        if w.get('calls'):
+            steps = R.history_steps(prog, w['calls'])
+            ctx.finding(fid, what, dict(op='history', fact=name, spec=spec, calls=w['calls'], steps=steps, measured=f))
+            return
         recv, out = prog.call_null(w['pos'], w['kw'])
         obs = {}
         for p in w['protos']:
@@ -1068,6 +1275,8 @@ def run(ctx):
                          [([{'s': 'zobaaa'}], [['s', {'s': 'hobaa'}]], 'kw-over-positional')],
                          [([{'s': 'a'}, {'s': 'b'}, {'s': 'c'}], [], 'too-many-positional')],
                          [([{'s': 'a'}, {'s': 'b'}], [['k', None], ['s', None]], 'kw-none-over-positional')]], t3=False)
+    for spec, calls in boundary_histories():
+        R.run_history(spec, calls)
     n_sig = 8000 if ctx.thorough else 1200
     import gc
     gc.disable()        # every program creates classes (cycles); collect at chosen points instead of ever more often
@@ -1086,6 +1295,10 @@ def run(ctx):
         spec = spec_of(sig, ptypes, rtypes, script, 'g%d' % i, with_ctx=rng.random() < 0.3, explicit_style=rng.random() < 0.2)
         groups = gen_calls(rng, sig, ptypes, 2 if not ctx.thorough else 3)
         R.run_program(spec, groups)
+        if i % 4 == 0 and kind != 'gen':
+            # the same method with 0..2 auxiliary companions, called repeatedly on one kept function object
+            hspec = dict(spec, name='h%d' % i, auxs=gen_auxs(rng, sig, ptypes, rng.choice([0, 1, 1, 2])))
+            R.run_history(hspec, history_of(rng, groups, rng.choice([2, 3, 4])))
         if i % 250 == 249:
             gc.collect()
             gc.freeze()
@@ -1096,9 +1309,12 @@ def run(ctx):
     for (q, impl), mod in zip(R.Q, answers):
         if 'driver_error' in mod:
             raise core.Infra('driver error: %r on %r' % (mod, q))
-        if q['op'] in ('null.call', 'wire.call') and impl.get('recv') is None:
+        if q['op'] in ('null.call', 'wire.call', 'wire.aux') and impl.get('recv') is None:
             # the function was not called on the implementation: compare the outcome only
             mod = dict(mod, recv=None) if 'ok' not in mod.get('recv', {}) else mod
+        if q['op'] == 'null.seq':
+            mod = {'steps': [dict(m, recv=None) if (i.get('recv') is None and 'ok' not in m.get('recv', {})) else m
+                             for m, i in zip(mod.get('steps', []), impl['steps'])]}
         if mod != impl:
             ctx.disagree(q['op'] + (':' + q['proto'] if 'proto' in q else ''), q, impl, mod)
     ctx.cov['t3_failures'] = R.t3_fail
@@ -1108,6 +1324,10 @@ def run(ctx):
                        'int/str/bool/complex/nested complex/member-less complex/array, 0..4 return values of the same types); each argument tuple is passed '
                        'positionally, by keyword, split, split without the Nones, short, with an unknown keyword; '
                        'every pos/kw/split call is also sent through XmlDocument, Soap11 and JsonDocument. '
+                       'Every 4th signature is also published with 0..2 auxiliary companions (own return declaration and '
+                       'body, one may raise) and called 2..4 times on ONE kept function object (long call first, then '
+                       'shorter ones), each step also on a fresh proxy, on a twin without companions and over the three '
+                       'wire paths. '
                        'distinct = distinct canonical (op, signature, script, call[, protocol]); all are non-trivial')
 
 
@@ -1141,6 +1361,29 @@ def replay(ctx, obj):
     elif op == 'fault-direct':
         bad += out != obj.get('want')
         print('expected          :', json.dumps(obj.get('want')), 'same' if out == obj.get('want') else 'DIFFERS')
+    elif op in ('history', 'aux-result'):
+        calls = obj.get('calls') or [[pos, kw]]
+        prog2 = Program(E, spec)
+        for n, (p_, k_) in enumerate(calls):
+            h = prog2.call_null(p_, k_, held=True)
+            haux = prog2.aux_canon()
+            fr = prog2.call_null(p_, k_)
+            same = (h == fr and haux == prog2.aux_canon())
+            bad += (op == 'history' and not same)
+            print('step %d pos=%s kw=%s' % (n, json.dumps(p_), json.dumps(k_)))
+            print('   kept function object : received=%s result=%s aux=%s' % (json.dumps(h[0]), json.dumps(h[1]), json.dumps(haux)))
+            print('   fresh function object: received=%s result=%s  %s' % (json.dumps(fr[0]), json.dumps(fr[1]), 'same' if same else 'DIFFERS'))
+            if spec.get('auxs'):
+                tw = Program(E, dict(spec, auxs=[])).call_null(p_, k_)
+                bad += (op == 'aux-result' and tw != fr)
+                print('   without companions   : received=%s result=%s  %s' % (json.dumps(tw[0]), json.dumps(tw[1]), 'same' if tw == fr else 'DIFFERS'))
+        try:
+            q = {'op': 'null.seq', 'sig': spec['sig'], 'script': spec['script'], 'auxs': spec.get('auxs') or [],
+                 'calls': [{'pos': p_, 'kw': k_} for p_, k_ in calls]}
+            print('model (kept object)   :', json.dumps(ctx.model([q])[0]))
+        except Exception as e:
+            print('model unavailable:', e)
+        return 1 if bad else 0
     elif op == 'ignored-direct':
         want = {'ok': {'ig': spec['script']['v']}}
         bad += out != want
